@@ -58,7 +58,10 @@ Record facts := {
      (function, root, depth of the written container below the root, mapping[field] re-bound to a copy first?) *)
   f_write_sites : list (string * string * nat * bool);
   (* self.document = copy(document) on entry; schema = schema.copy() before references are resolved *)
-  f_entry_copies : bool
+  f_entry_copies : bool;
+  (* DefinitionSchema.__new__: the lazily created class is assigned to the module global as the last statement
+     of the creation block and never modified through the global afterwards *)
+  f_lazy_publish_last : bool
 }.
 
 Definition errdef (F : facts) (name : string) : Z * option string :=
